@@ -83,6 +83,7 @@ macro_rules! elem_int {
 elem_int!(i32, "i32");
 elem_int!(i64, "i64");
 elem_int!(usize, "usize");
+elem_int!(u64, "u64");
 
 impl Elem for bool {
     const NAME: &'static str = "bool";
